@@ -11,8 +11,6 @@ Proof.
     apply Z.leb_le in E1; apply Z.ltb_lt in E2; lia.
 Qed.
 
-Definition int_in_range (k : Z) (n : nat) : Prop := (- Z.of_nat n <= k < Z.of_nat n)%Z.
-
 Lemma norm_int_spec k n :
   (int_in_range k n /\ exists m, norm_int k n = Ok m /\ m < n
                                  /\ Z.of_nat m = if (0 <=? k)%Z then k else (k + Z.of_nat n)%Z)
